@@ -436,4 +436,244 @@ Proof.
   - split; [apply SVB_step; assumption|]. split; [apply SE_step; assumption|].
     split; [apply SC_step; assumption|]. split; [apply SM_step; assumption|apply SCM_step; assumption].
 Qed.
+
+(* ------------------------------------------------------------------------------------------ *)
+(* reject direction                                                                            *)
+Definition RVB (f : nat) : Prop := forall k Sk st e start, kind_ok fl k = true -> nlen Sk + 1 <= md ->
+  dec_body fl f md (nlen Sk + 1) k st = Err e -> FailOut (rvb k start Sk st) (2 * length st + 1) e.
+Definition RE (f : nat) : Prop := forall ek n st e h cs i Sk,
+  dec_elems fl f md (nlen Sk + 1) ek n st = Err e ->
+  child_count h = i + 1 + n -> (forall j, implicit_kind h j = ek) ->
+  (forall k, ek = Some k -> kind_ok fl k = true) -> nlen Sk + 2 <= md ->
+  Fail (mk ANextChild (anc h cs i :: Sk) st) (2 * length st + 1) e.
+Definition RC (f : nat) : Prop := forall ek n st e h cs Sk,
+  dec_elems fl f md (nlen Sk + 1) ek n st = Err e ->
+  child_count h = n -> (forall j, implicit_kind h j = ek) ->
+  (forall k, ek = Some k -> kind_ok fl k = true) -> nlen Sk + 1 <= md ->
+  Fail (mk (AContainerStart h cs) Sk st) (2 * length st + 2) e.
+Definition RM (f : nat) : Prop := forall kk vk n st e len cs i Sk,
+  dec_entries fl f md (nlen Sk + 1) kk vk n st = Err e ->
+  len * 2 = i + 1 + 2 * n -> N.even i = false -> kind_ok fl kk = true -> kind_ok fl vk = true ->
+  nlen Sk + 2 <= md ->
+  Fail (mk ANextChild (anc (HMap kk vk len) cs i :: Sk) st) (2 * length st + 1) e.
+Definition RCM (f : nat) : Prop := forall kk vk n st e cs Sk,
+  dec_entries fl f md (nlen Sk + 1) kk vk n st = Err e ->
+  kind_ok fl kk = true -> kind_ok fl vk = true -> nlen Sk + 1 <= md ->
+  Fail (mk (AContainerStart (HMap kk vk n) cs) Sk st) (2 * length st + 2) e.
+
+Lemma RV_res_err : forall ek Sk st e b, resolve ek st = Err e -> (1 <= b)%nat -> FailOut (rv ek Sk st) b e.
+Proof.
+  intros ek Sk st e b R B. destruct ek as [k|]; cbn [resolve] in R; [discriminate|].
+  unfold read_value. rewrite R. apply complete_err_fail; [apply err_ok_refl|exact B].
+Qed.
+Lemma RV_of : forall f, RVB f -> forall ek k Sk st st' e,
+  resolve ek st = Ok (k, st') -> (forall k0, ek = Some k0 -> kind_ok fl k0 = true) -> nlen Sk + 1 <= md ->
+  dec_body fl f md (nlen Sk + 1) k st' = Err e -> FailOut (rv ek Sk st) (2 * length st + 1) e.
+Proof.
+  intros f H ek k Sk st st' e R Hk Hd D. destruct (resolve_len _ _ _ _ R) as [L K]. specialize (K Hk).
+  unfold read_value. destruct ek as [k0|]; cbn [resolve] in R.
+  - inversion R; subst. eapply H; eassumption.
+  - rewrite R. eapply FailOut_mono; [eapply H; eassumption|lia].
+Qed.
+
+(* a failing dec_deeper, when the depth check passes, is a failing body *)
+Lemma deeper_err : forall f d k st e, d + 1 <= md -> dec_deeper fl f md d k st = Err e ->
+  dec_body fl f md (d + 1) k st = Err e.
+Proof.
+  intros f d k st e Hd D. unfold dec_deeper in D.
+  replace (md <? d + 1) with false in D by (symmetry; apply N.ltb_ge; exact Hd). exact D.
+Qed.
+
+Lemma RE_step : forall f, SVB f -> RVB f -> RE f -> RE (S f).
+Proof.
+  intros f HS HV HE ek n st e h cs i Sk D Hc Hi Hk Hd. rewrite dec_elems_S' in D.
+  destruct (n =? 0) eqn:N0; [discriminate|]. apply N.eqb_neq in N0.
+  assert (St : stepc (mk ANextChild (anc h cs i :: Sk) st) = rv ek (anc h cs (i + 1) :: Sk) st).
+  { rewrite step_next_child by lia. rewrite Hi. reflexivity. }
+  destruct (resolve ek st) as [[k st']|e0| |] eqn:R; cbn [bind] in D; try discriminate.
+  2:{ inversion D; subst e0. eapply Fail_S; [exact St|]. apply RV_res_err; [exact R|lia]. }
+  destruct (dec_deeper fl f md (nlen Sk + 1) k st') as [[v st1]|e0| |] eqn:D1; cbn [bind] in D; try discriminate.
+  2:{ inversion D; subst e0. apply deeper_err in D1; [|lia].
+      eapply Fail_S; [exact St|]. eapply RV_of; try eassumption; rewrite nlen_cons; [lia|exact D1]. }
+  destruct (dec_elems fl f md (nlen Sk + 1) ek (n - 1) st1) as [[vs' st2]|e0| |] eqn:D2; cbn [bind] in D; try discriminate.
+  inversion D; subst e0. clear D.
+  apply deeper_ok in D1. destruct D1 as [_ D1].
+  destruct (SV_of f HS ek k (anc h cs (i + 1) :: Sk) st st' v st1 R Hk) as [n1 [RO B1]];
+    [rewrite nlen_cons; lia|rewrite nlen_cons; exact D1|].
+  assert (F2 := HE ek (n - 1) st1 e h cs (i + 1) Sk D2 ltac:(lia) Hi Hk Hd).
+  eapply Fail_mono; [eapply Fail_steps; [eapply steps_S; [exact St|exact RO]|exact F2]|lia].
+Qed.
+
+Lemma RC_step : forall f, SVB f -> RVB f -> RE f -> RC (S f).
+Proof.
+  intros f HS HV HE ek n st e h cs Sk D Hc Hi Hk Hd.
+  destruct (N.eq_dec n 0) as [N0|N0].
+  { rewrite dec_elems_S', N0 in D. change (0 =? 0) with true in D. discriminate. }
+  destruct (N.le_gt_cases md (nlen Sk + 1)) as [Dp|Dp].
+  { (* children would be too deep: the machine reports it before reading anything *)
+    exists O, (mk (AContainerStart h cs) Sk st). eexists _, _, (MaxDepthExceeded md).
+    split; [reflexivity|]. split; [apply step_cs_depth; [rewrite Hc; exact N0|exact Dp]|].
+    split; [reflexivity|]. split; [right; left; reflexivity|lia]. }
+  destruct (is_u8_array h) eqn:U.
+  { destruct (u8_array_inv h ek U Hi) as [Eek [l Eh]]. subst ek h. cbn [child_count] in Hc. subst l.
+    assert (Dp' : nlen Sk + 1 + 1 <= md) by lia.
+    destruct (u8_elems_err _ _ _ _ _ _ Dp' D) as [Ue [e' [R Ue']]].
+    exists O, (mk (AContainerStart (HArray (KInt U8) n) cs) Sk st). eexists _, _, e'.
+    split; [reflexivity|]. split.
+    { rewrite step_cs_batch by (cbn [child_count is_u8_array]; try lia; reflexivity). cbn [child_count]. rewrite R. reflexivity. }
+    split; [reflexivity|]. split; [right; right; split; assumption|lia]. }
+  rewrite dec_elems_S' in D. replace (n =? 0) with false in D by (symmetry; apply N.eqb_neq; exact N0).
+  assert (St : stepc (mk (AContainerStart h cs) Sk st) = rv ek (anc h cs 0 :: Sk) st).
+  { rewrite step_cs_child by (try rewrite Hc; try lia; assumption). rewrite Hi. reflexivity. }
+  destruct (resolve ek st) as [[k st']|e0| |] eqn:R; cbn [bind] in D; try discriminate.
+  2:{ inversion D; subst e0. eapply Fail_S; [exact St|]. apply RV_res_err; [exact R|lia]. }
+  destruct (dec_deeper fl f md (nlen Sk + 1) k st') as [[v st1]|e0| |] eqn:D1; cbn [bind] in D; try discriminate.
+  2:{ inversion D; subst e0. apply deeper_err in D1; [|lia].
+      eapply Fail_S; [exact St|]. eapply FailOut_mono; [eapply RV_of; try eassumption; rewrite nlen_cons; [lia|exact D1]|lia]. }
+  destruct (dec_elems fl f md (nlen Sk + 1) ek (n - 1) st1) as [[vs' st2]|e0| |] eqn:D2; cbn [bind] in D; try discriminate.
+  inversion D; subst e0. clear D.
+  apply deeper_ok in D1. destruct D1 as [_ D1].
+  destruct (SV_of f HS ek k (anc h cs 0 :: Sk) st st' v st1 R Hk) as [n1 [RO B1]];
+    [rewrite nlen_cons; lia|rewrite nlen_cons; exact D1|].
+  assert (F2 := HE ek (n - 1) st1 e h cs 0 Sk D2 ltac:(lia) Hi Hk ltac:(lia)).
+  eapply Fail_mono; [eapply Fail_steps; [eapply steps_S; [exact St|exact RO]|exact F2]|lia].
+Qed.
+
+Lemma some_ok : forall k, kind_ok fl k = true -> forall k0, Some k = Some k0 -> kind_ok fl k0 = true.
+Proof. intros k H k0 E. inversion E; subst. exact H. Qed.
+
+Lemma RM_step : forall f, SVB f -> RVB f -> RM f -> RM (S f).
+Proof.
+  intros f HS HV HM kk vk n st e len cs i Sk D Hc Hev Hkk Hvk Hd. rewrite dec_entries_S in D.
+  destruct (n =? 0) eqn:N0; [discriminate|]. apply N.eqb_neq in N0.
+  set (h := HMap kk vk len) in *.
+  assert (St1 : forall s, stepc (mk ANextChild (anc h cs i :: Sk) s) = rv (Some kk) (anc h cs (i + 1) :: Sk) s).
+  { intro s. rewrite step_next_child by (unfold h; cbn [child_count]; lia).
+    unfold h; cbn [implicit_kind]. rewrite even_p1, Hev. reflexivity. }
+  assert (St2 : forall s, stepc (mk ANextChild (anc h cs (i + 1) :: Sk) s) = rv (Some vk) (anc h cs (i + 1 + 1) :: Sk) s).
+  { intro s. rewrite step_next_child by (unfold h; cbn [child_count]; lia).
+    unfold h; cbn [implicit_kind]. rewrite !even_p1, Hev. reflexivity. }
+  destruct (dec_deeper fl f md (nlen Sk + 1) kk st) as [[k st1]|e0| |] eqn:D1; cbn [bind] in D; try discriminate.
+  2:{ inversion D; subst e0. apply deeper_err in D1; [|lia]. eapply Fail_S; [apply St1|].
+      eapply (RV_of f HV (Some kk) kk); [reflexivity|apply some_ok; exact Hkk|rewrite nlen_cons; lia|rewrite nlen_cons; exact D1]. }
+  apply deeper_ok in D1. destruct D1 as [_ D1].
+  destruct (SV_of f HS (Some kk) kk (anc h cs (i + 1) :: Sk) st st k st1 eq_refl (some_ok kk Hkk)) as [n1 [RO1 B1]];
+    [rewrite nlen_cons; lia|rewrite nlen_cons; exact D1|].
+  assert (R1 : steps (S n1) (mk ANextChild (anc h cs i :: Sk) st) = Some (mk ANextChild (anc h cs (i + 1) :: Sk) st1)).
+  { eapply steps_S; [apply St1|exact RO1]. }
+  destruct (dec_deeper fl f md (nlen Sk + 1) vk st1) as [[x st2]|e0| |] eqn:D2; cbn [bind] in D; try discriminate.
+  2:{ inversion D; subst e0. apply deeper_err in D2; [|lia].
+      eapply Fail_mono; [eapply Fail_steps; [exact R1|]|].
+      - eapply Fail_S; [apply St2|].
+        eapply (RV_of f HV (Some vk) vk); [reflexivity|apply some_ok; exact Hvk|rewrite nlen_cons; lia|rewrite nlen_cons; exact D2].
+      - lia. }
+  apply deeper_ok in D2. destruct D2 as [_ D2].
+  destruct (SV_of f HS (Some vk) vk (anc h cs (i + 1 + 1) :: Sk) st1 st1 x st2 eq_refl (some_ok vk Hvk)) as [n2 [RO2 B2]];
+    [rewrite nlen_cons; lia|rewrite nlen_cons; exact D2|].
+  assert (R2 : steps (S n2) (mk ANextChild (anc h cs (i + 1) :: Sk) st1) = Some (mk ANextChild (anc h cs (i + 1 + 1) :: Sk) st2)).
+  { eapply steps_S; [apply St2|exact RO2]. }
+  destruct (dec_entries fl f md (nlen Sk + 1) kk vk (n - 1) st2) as [[es' st3]|e0| |] eqn:D3; cbn [bind] in D; try discriminate.
+  inversion D; subst e0. clear D.
+  assert (F3 := HM kk vk (n - 1) st2 e len cs (i + 1 + 1) Sk D3 ltac:(lia)).
+  rewrite !even_p1, Hev in F3. specialize (F3 eq_refl Hkk Hvk Hd).
+  eapply Fail_mono; [eapply Fail_steps; [exact R1|eapply Fail_steps; [exact R2|exact F3]]|lia].
+Qed.
+
+Lemma RCM_step : forall f, SVB f -> RVB f -> RM f -> RCM (S f).
+Proof.
+  intros f HS HV HM kk vk n st e cs Sk D Hkk Hvk Hd. rewrite dec_entries_S in D.
+  destruct (n =? 0) eqn:N0; [discriminate|]. apply N.eqb_neq in N0.
+  set (h := HMap kk vk n) in *.
+  destruct (N.le_gt_cases md (nlen Sk + 1)) as [Dp|Dp].
+  { exists O, (mk (AContainerStart h cs) Sk st). eexists _, _, (MaxDepthExceeded md).
+    split; [reflexivity|]. split; [apply step_cs_depth; [unfold h; cbn [child_count]; lia|exact Dp]|].
+    split; [reflexivity|]. split; [right; left; reflexivity|lia]. }
+  assert (St1 : forall s, stepc (mk (AContainerStart h cs) Sk s) = rv (Some kk) (anc h cs 0 :: Sk) s).
+  { intro s. rewrite step_cs_child by (unfold h; cbn [child_count is_u8_array]; try lia; reflexivity). reflexivity. }
+  assert (St2 : forall s, stepc (mk ANextChild (anc h cs 0 :: Sk) s) = rv (Some vk) (anc h cs (0 + 1) :: Sk) s).
+  { intro s. rewrite step_next_child by (unfold h; cbn [child_count]; lia). reflexivity. }
+  destruct (dec_deeper fl f md (nlen Sk + 1) kk st) as [[k st1]|e0| |] eqn:D1; cbn [bind] in D; try discriminate.
+  2:{ inversion D; subst e0. apply deeper_err in D1; [|lia]. eapply Fail_S; [apply St1|].
+      eapply FailOut_mono; [eapply (RV_of f HV (Some kk) kk); [reflexivity|apply some_ok; exact Hkk|rewrite nlen_cons; lia|rewrite nlen_cons; exact D1]|lia]. }
+  apply deeper_ok in D1. destruct D1 as [_ D1].
+  destruct (SV_of f HS (Some kk) kk (anc h cs 0 :: Sk) st st k st1 eq_refl (some_ok kk Hkk)) as [n1 [RO1 B1]];
+    [rewrite nlen_cons; lia|rewrite nlen_cons; exact D1|].
+  assert (R1 : steps (S n1) (mk (AContainerStart h cs) Sk st) = Some (mk ANextChild (anc h cs 0 :: Sk) st1)).
+  { eapply steps_S; [apply St1|exact RO1]. }
+  destruct (dec_deeper fl f md (nlen Sk + 1) vk st1) as [[x st2]|e0| |] eqn:D2; cbn [bind] in D; try discriminate.
+  2:{ inversion D; subst e0. apply deeper_err in D2; [|lia].
+      eapply Fail_mono; [eapply Fail_steps; [exact R1|]|].
+      - eapply Fail_S; [apply St2|].
+        eapply (RV_of f HV (Some vk) vk); [reflexivity|apply some_ok; exact Hvk|rewrite nlen_cons; lia|rewrite nlen_cons; exact D2].
+      - lia. }
+  apply deeper_ok in D2. destruct D2 as [_ D2].
+  destruct (SV_of f HS (Some vk) vk (anc h cs (0 + 1) :: Sk) st1 st1 x st2 eq_refl (some_ok vk Hvk)) as [n2 [RO2 B2]];
+    [rewrite nlen_cons; lia|rewrite nlen_cons; exact D2|].
+  assert (R2 : steps (S n2) (mk ANextChild (anc h cs 0 :: Sk) st1) = Some (mk ANextChild (anc h cs (0 + 1) :: Sk) st2)).
+  { eapply steps_S; [apply St2|exact RO2]. }
+  destruct (dec_entries fl f md (nlen Sk + 1) kk vk (n - 1) st2) as [[es' st3]|e0| |] eqn:D3; cbn [bind] in D; try discriminate.
+  inversion D; subst e0. clear D.
+  assert (F3 := HM kk vk (n - 1) st2 e n cs (0 + 1) Sk D3 ltac:(lia) eq_refl Hkk Hvk ltac:(lia)).
+  eapply Fail_mono; [eapply Fail_steps; [exact R1|eapply Fail_steps; [exact R2|exact F3]]|lia].
+Qed.
+
+Lemma start_fail : forall ev start Sk st next b b' e, is_final ev = false ->
+  Fail (mk next Sk st) b' e -> (b' + 1 <= b)%nat -> FailOut (complete cfg ev start Sk st next) b e.
+Proof. intros. right. eexists _, _, b'. split; [reflexivity|]. repeat split; assumption. Qed.
+
+Lemma RVB_step : forall f, RC f -> RCM f -> RVB (S f).
+Proof.
+  intros f HC HCM k Sk st e start Hk Hd D.
+  destruct (is_container k) eqn:C.
+  2:{ rewrite leaf_fuel_indep in D by exact C. unfold read_value_body.
+      destruct k; try discriminate C; rewrite D; apply complete_err_fail; try apply err_ok_refl; lia. }
+  rewrite dec_body_S in D. destruct k; try discriminate C; unfold read_value_body.
+  - (* Enum *)
+    destruct st as [|disc st']; cbn [read_byte bind] in D |- *.
+    { inversion D; subst. apply complete_err_fail; [apply err_ok_refl|lia]. }
+    destruct (read_size st') as [[n st1]|e0| |] eqn:R; cbn [bind] in D |- *; try discriminate.
+    2:{ inversion D; subst. apply complete_err_fail; [apply err_ok_refl|lia]. }
+    destruct (dec_elems fl f md (nlen Sk + 1) None n st1) as [[fs st2]|e0| |] eqn:DE; cbn [bind] in D; try discriminate.
+    inversion D; subst e0. clear D. apply read_size_consumes in R.
+    eapply start_fail; [reflexivity|eapply (HC None n st1 e (HEnum disc n) start Sk DE eq_refl); [reflexivity|discriminate|exact Hd]|].
+    cbn [length]. lia.
+  - (* Array *)
+    destruct (read_value_kind fl st) as [[ek st0]|e0| |] eqn:RK; cbn [bind] in D |- *; try discriminate.
+    2:{ inversion D; subst. apply complete_err_fail; [apply err_ok_refl|lia]. }
+    apply read_value_kind_len in RK. destruct RK as [L Hek].
+    destruct (read_size st0) as [[n st1]|e0| |] eqn:R; cbn [bind] in D |- *; try discriminate.
+    2:{ inversion D; subst. apply complete_err_fail; [apply err_ok_refl|lia]. }
+    destruct (dec_elems fl f md (nlen Sk + 1) (Some ek) n st1) as [[fs st2]|e0| |] eqn:DE; cbn [bind] in D; try discriminate.
+    inversion D; subst e0. clear D. apply read_size_consumes in R.
+    eapply start_fail; [reflexivity|eapply (HC (Some ek) n st1 e (HArray ek n) start Sk DE eq_refl); [reflexivity|apply some_ok; exact Hek|exact Hd]|].
+    lia.
+  - (* Tuple *)
+    destruct (read_size st) as [[n st1]|e0| |] eqn:R; cbn [bind] in D |- *; try discriminate.
+    2:{ inversion D; subst. apply complete_err_fail; [apply err_ok_refl|lia]. }
+    destruct (dec_elems fl f md (nlen Sk + 1) None n st1) as [[fs st2]|e0| |] eqn:DE; cbn [bind] in D; try discriminate.
+    inversion D; subst e0. clear D. apply read_size_consumes in R.
+    eapply start_fail; [reflexivity|eapply (HC None n st1 e (HTuple n) start Sk DE eq_refl); [reflexivity|discriminate|exact Hd]|].
+    lia.
+  - (* Map *)
+    destruct (read_value_kind fl st) as [[kk st0]|e0| |] eqn:RK; cbn [bind] in D |- *; try discriminate.
+    2:{ inversion D; subst. apply complete_err_fail; [apply err_ok_refl|lia]. }
+    apply read_value_kind_len in RK. destruct RK as [L Hkk].
+    destruct (read_value_kind fl st0) as [[vk st0']|e0| |] eqn:RV; cbn [bind] in D |- *; try discriminate.
+    2:{ inversion D; subst. apply complete_err_fail; [apply err_ok_refl|lia]. }
+    apply read_value_kind_len in RV. destruct RV as [L' Hvk].
+    destruct (read_size st0') as [[n st1]|e0| |] eqn:R; cbn [bind] in D |- *; try discriminate.
+    2:{ inversion D; subst. apply complete_err_fail; [apply err_ok_refl|lia]. }
+    destruct (dec_entries fl f md (nlen Sk + 1) kk vk n st1) as [[es st2]|e0| |] eqn:DE; cbn [bind] in D; try discriminate.
+    inversion D; subst e0. clear D. apply read_size_consumes in R.
+    eapply start_fail; [reflexivity|eapply (HCM kk vk n st1 e start Sk DE Hkk Hvk Hd)|]. lia.
+Qed.
+
+Lemma R_all : forall f, RVB f /\ RE f /\ RC f /\ RM f /\ RCM f.
+Proof.
+  induction f as [|f [IV [IE [IC [IM ICM]]]]].
+  - repeat split; repeat intro; discriminate.
+  - destruct (S_all f) as [SV _].
+    split; [apply RVB_step; assumption|]. split; [apply RE_step; assumption|].
+    split; [apply RC_step; assumption|]. split; [apply RM_step; assumption|apply RCM_step; assumption].
+Qed.
 End Sim.
